@@ -15,9 +15,10 @@ def write_if_changed(path, text):
 
 def run_all(run):
     """Regenerate every extracted file; record translator failures as failed obligations."""
-    from . import tr_tables, tr_forms, tr_pipelines, tr_effects, tr_dispatch, tr_formulas
+    from . import tr_tables, tr_forms, tr_pipelines, tr_effects, tr_dispatch, tr_formulas, tr_signatures
     for name, fn in [("Tables", tr_tables.generate), ("Forms", tr_forms.generate), ("Pipelines", tr_pipelines.generate),
-                     ("Effects", tr_effects.generate), ("Dispatch", tr_dispatch.generate), ("Formulas", tr_formulas.generate)]:
+                     ("Effects", tr_effects.generate), ("Dispatch", tr_dispatch.generate), ("Formulas", tr_formulas.generate),
+                     ("Signatures", tr_signatures.generate)]:
         try:
             text = fn()
             write_if_changed(os.path.join(core.LEAN_DIR, "GBExtracted", name + ".lean"), text)
